@@ -36,10 +36,22 @@ ReplaceOK(items) ==
     (* members of an allOf are merged structurally, not referenced *)
     /\ HasField(items, "HubMerged", "q") /\ HasField(items, "HubMerged", "z")
 
+(* one patch target: new name (or the old one when there is no rename) defined with the extra
+   derives, the old name nowhere *)
+PatchedDef(items, old, new, derives) ==
+    /\ (new # old => ItemsNamed(items, old) = {} /\ \A x \in AllFields(items) : ~Mentions(x, old))
+    /\ \E i \in ItemsNamed(items, new) : items[i].kind \in {"struct", "enum"} /\ derives \subseteq Range(items[i].derives)
 PatchOK(items) ==
     /\ ItemsNamed(items, "Tgt") = {}
     /\ \E i \in ItemsNamed(items, "Renamed") : {"Eq", "PartialEq"} \subseteq Range(items[i].derives)
     /\ UsesEverywhere(items, "Renamed", "Tgt")
+    (* named types of the other kinds: constrained string, typed non-string enum, deny list, alias
+       wrapper, string enum *)
+    /\ PatchedDef(items, "Code", "CodeR", {"Default"}) /\ Mentions(Field(items, "Holder", "code"), "CodeR")
+    /\ PatchedDef(items, "Lvl", "Lvl", {"Default"})
+    /\ PatchedDef(items, "NotAb", "NotAb", {"Default"})
+    /\ PatchedDef(items, "Labels", "LabelsR", {"Default"}) /\ Mentions(Field(items, "Holder", "labels"), "LabelsR")
+    /\ PatchedDef(items, "Col", "ColR", {})
 
 ConvertOK(items) ==
     /\ \A f \in NumSites : HasField(items, "Hub", f) /\ Mentions(Field(items, "Hub", f), "crate::support::Num")
